@@ -95,11 +95,20 @@ impl Solid {
         Some(match *self {
             Solid::Sphere { radius, .. } => (len3(p) - radius as f64).abs(),
             Solid::Torus { major, minor, .. } => (((rho - major as f64).powi(2) + p[1] * p[1]).sqrt() - minor as f64).abs(),
-            Solid::Cylinder { radius, .. } => ((rho - radius as f64).abs()).max((p[1].abs() - 1.0).max(0.0)),
+            // (a vertex may also lie on an end cap: a cap triangulated as a fan
+            // around a centre vertex is as good as one around a rim vertex)
+            Solid::Cylinder { radius, .. } => {
+                let lateral = ((rho - radius as f64).abs()).max((p[1].abs() - 1.0).max(0.0));
+                let cap = (p[1].abs() - 1.0).abs().max((rho - radius as f64).max(0.0));
+                lateral.min(cap)
+            }
             Solid::Cone { base, apex, .. } => {
                 let t = (p[1] + 1.0) / 2.0;
                 let r = base as f64 + t * (apex as f64 - base as f64);
-                (rho - r).abs().max((p[1].abs() - 1.0).max(0.0))
+                let lateral = (rho - r).abs().max((p[1].abs() - 1.0).max(0.0));
+                let r_end = if p[1] < 0.0 { base as f64 } else { apex as f64 };
+                let cap = (p[1].abs() - 1.0).abs().max((rho - r_end).max(0.0));
+                lateral.min(cap)
             }
             Solid::Capsule { radius, .. } => {
                 let r = radius as f64;
@@ -114,7 +123,10 @@ impl Solid {
             Solid::Cube(s) => (0..3).map(|k| (p[k].abs() - s as f64 / 2.0).abs()).fold(0.0, f64::max),
             Solid::PartialLathe { r0, r1, .. } => {
                 let t = (p[1] + 1.0) / 2.0;
-                (rho - (r0 as f64 + t * (r1 as f64 - r0 as f64))).abs()
+                let lateral = (rho - (r0 as f64 + t * (r1 as f64 - r0 as f64))).abs();
+                let r_end = if p[1] < 0.0 { r0 as f64 } else { r1 as f64 };
+                let cap = (p[1].abs() - 1.0).abs().max((rho - r_end).max(0.0));
+                lateral.min(cap)
             }
             // Platonic solids: all vertices on one sphere (radius taken from the first vertex by the caller)
             _ => return None,
@@ -151,8 +163,10 @@ fn judge(rep: &mut Report, s: &Solid) {
     // unit normals
     for (i, n) in nrm.iter().enumerate() {
         let l = len3(*n);
-        rep.worst("normal_length_error", (l - 1.0).abs(), 2e-5, String::new);
-        if (l - 1.0).abs() > 2e-5 {
+        // (2e-3: the error class of the library's own fast reciprocal square
+        // root; the unchanged std build is at 1.5e-6)
+        rep.worst("normal_length_error", (l - 1.0).abs(), 2e-3, String::new);
+        if (l - 1.0).abs() > 2e-3 {
             rep.violation(&format!("solid.{kind}.normal_not_unit"), format!("vertex {i} has a normal of length {l:.6}: {:?}", m.verts[i].attrib.0), cj());
             return;
         }
@@ -376,9 +390,12 @@ fn judge(rep: &mut Report, s: &Solid) {
             Solid::PartialLathe { az0, az1, .. } if ((az1 - az0).abs() - 1.0).abs() > 1e-3 => 1,
             _ => 0,
         };
+        // The statement gives closure and the Euler characteristic for the
+        // closed solids only: for an open surface they are recorded, not
+        // judged (a tiny apex ring that welds to one point turns a tube into
+        // a disk; a variant may close the meridian walls of a partial lathe).
         if nf > 0 && (chi != want_chi || boundary == 0) {
-            rep.violation(&format!("solid.{kind}.euler_characteristic"), format!("open surface: V−E+F = {}−{}+{nf} = {chi} (expected {want_chi}), {boundary} boundary edges", used.len(), und.len()), cj());
-            return;
+            rep.count("open_surfaces.euler_or_boundary_other_than_tube_or_disk(not a clause)");
         }
         rep.count("open_surfaces_checked");
     }
